@@ -1,4 +1,4 @@
-CONSTANTS Variant = "SortSignedAttrs"
+CONSTANTS Variant = "SortSignedAttrs"  ALens = {"natural"}  Slim = FALSE
 SPECIFICATION Spec
 INVARIANTS TypeOK SignedPartsSame MandatoryAttrsOnce RefuseOnlyWhenJustified
 CHECK_DEADLOCK FALSE
